@@ -1,6 +1,7 @@
 (* C10 — Arena bookkeeping and reported statistics are always coherent. *)
 From Coq Require Import ZArith List.
 From BS Require Import Word BumpSpec ChunkSpec Arena ArenaInv ArenaStats ArenaExt ArenaInv2 ArenaSizes ArenaHeader ArenaAny AllocRefine StatsSpec.
+From BS.gen Require FixFacts.
 From BS.gen Require StatsRules.
 From BS.gen Require AllocSites.
 Import ListNotations.
@@ -154,6 +155,11 @@ Theorem C10_rules_that_pass_compute_the_models_statistics :
   end.
 Proof. exact rules_compute_arena_stats. Qed.
 
+(* the repair of a genuine defect recorded in known_findings.json is still in place in the CURRENT source (tools/fixsites.py ->
+   gen/FixFacts.v, read out on every run): a `fixed:` entry suppresses nothing, and its syntactic return breaks this obligation *)
+Theorem C10_repair_in_place_defect2 : FixFacts.defect2_any_chunk_carries_the_header_size_of_its_allocator = true.
+Proof. vm_compute. reflexivity. Qed.
+
 Print Assumptions C10_stats_identities.
 Print Assumptions C10_reachable.
 Print Assumptions C10_chunks_strictly_grow.
@@ -172,3 +178,4 @@ Print Assumptions C10_model_chunk_size_in_those_terms.
 Print Assumptions C10_source_new_chunk_header_is_the_models.
 Print Assumptions C10_source_statistics_rules_are_the_models.
 Print Assumptions C10_rules_that_pass_compute_the_models_statistics.
+Print Assumptions C10_repair_in_place_defect2.
